@@ -207,7 +207,7 @@ func init() {
 				nC++
 				c.Check(edgeOnlyFails(w, f, ea.E.From.Succs[ea.E.Succ]), fk+" :: committed evidence is rejected", w.pos(f.Pos()), "the committed edge only leads to an error return", "evidence already committed can pass CheckEvidence")
 			}
-			if regexp.MustCompile(`^true\(bytes\.Equal\(.*hashes.*\[.*\], .*hashes.*\[.*\]\)\)$`).MatchString(s) || regexp.MustCompile(`^true\(bytes\.Equal\(make\(\[\]\[\]byte.*\)\[.*\], make\(\[\]\[\]byte.*\)\[.*\]\)\)$`).MatchString(s) {
+			if regexp.MustCompile(`^true\(bytes\.Equal\(.*hashes.*\[.*\], .*hashes.*\[.*\]\)\)$`).MatchString(s) || regexp.MustCompile(`^true\(bytes\.Equal\(make\(\[\]\[\]byte.*\)\[.*\], (make\(\[\]\[\]byte.*\)\[.*\]|.*\.Hash\(\))\)\)$`).MatchString(s) {
 				nD++
 				c.Check(edgeOnlyFails(w, f, ea.E.From.Succs[ea.E.Succ]), fk+" :: repeated evidence in one block is rejected", w.pos(f.Pos()), "the equal-hash edge only leads to an error return", "the same evidence twice in a block can pass CheckEvidence")
 			}
